@@ -93,6 +93,7 @@ def showSideSt (name : String) (s : SideSt) : String :=
     ++ " inbox=" ++ commas (s.inbox.map showMsg)
     ++ " exec=" ++ commas (s.executed.map toString)
     ++ " ans=" ++ commas (s.answered.map showEntry)
+    ++ " aband=" ++ commas (s.abandoned.map toString)
     ++ " res=" ++ commas (s.results.map showEntry)
     ++ " drop=" ++ commas (s.dropped.map toString)
     ++ " dead=" ++ (if s.dead then "T" else "F") ++ "]"
